@@ -436,7 +436,10 @@ func main() {
 						emit("del-branch", x.Pos(), x.End(), "{}")
 					}
 				case *ast.ReturnStmt:
-					// swap `return x, nil` error to keep arity? skipped
+					// a bare return removed: the guard's body runs, then the function carries on
+					if len(x.Results) == 0 && (fd.Type.Results == nil || len(fd.Type.Results.List) == 0) {
+						emit("del-return", x.Pos(), x.End(), "{}")
+					}
 				case *ast.BlockStmt:
 					// two adjacent simple statements exchanged; a simple statement executed twice
 					simple := func(st ast.Stmt) bool {
